@@ -6,19 +6,106 @@ ALL = ["C%02d" % i for i in range(1, 31)]
 
 # id -> (category, technique, level text, level note, design_ref)
 CHECKS = {
+ "C01": ("fault_enumeration", "crash-point enumeration over an strace-recorded syscall trace + durable-image reopen",
+         "A worker runs generated histories on a real directory under strace; every syscall boundary touching the index is a crash point; the volatile/durable file-system model yields every durable image (dir-op prefixes x dropped/kept/prefix/torn data), each is materialised at the original path and reopened with the real Index::open and compared with the content model. Exhaustive over crash points of each trace under the stated crash model, sampled over histories.",
+         "Crash model: fsync(file) persists data not the dirent; dir ops since last fsync(dir) persist as a program-order prefix; strace is faithful for the single-threaded worker.", "DESIGN.md#c01"),
+ "C02": ("fault_enumeration", "log-tail crash enumeration (dropped/kept/cut/torn) over multi-round crash/restart histories + recovery oracle",
+         "The real writer runs through a crash-capable Storage wrapper that shadows wal.log record by record; at storage-operation boundaries the unsynced tail is dropped, kept, cut after any record or torn inside a record; each image is recovered with Wal::last_pending_ops / writer / commit and judged against the computed intact prefix and the crash-free contents; up to 3 crash rounds.",
+         "Only the log tail varies (the property's quantifier); other files as on disk; wal.log's dirent durable once created.", "DESIGN.md#c02"),
+ "C03": ("fault_enumeration", "exhaustive single (thorough: ordered double) storage-fault injection at the public Storage trait + content model",
+         "Every storage operation of every add/delete/commit/rollback/compact call of generated histories is failed once, before and after its effect; thorough adds every ordered pair inside commit/rollback/compact and a filesystem-backed variant; result, same-index reader, reopen and retry are judged against the content model.",
+         "Faults injected at the Storage/StorageFile trait boundary; for pairs only openability/no-missing-files/no-panic is judged.", "DESIGN.md#c03"),
  "C04": ("exploration", "reference-model monitor over generated call histories",
          "Every call of thousands of seeded multi-handle histories is followed by a fresh reader whose stored contents are compared with an independent sequential content/queue model; holds on the histories explored, not a proof.",
-         "Healthy storage, no crashes; stored fields compared modulo null/[]/absent and singleton-array trivia; model of handle inheritance per DESIGN C04.",
-         "DESIGN.md#c04"),
+         "Healthy storage, no crashes; stored fields compared modulo null/[]/absent and singleton-array trivia; model of handle inheritance per DESIGN C04.", "DESIGN.md#c04"),
+ "C05": ("exploration", "exact serializability checker over recorded concurrent histories with injected delays at hook pause points",
+         "2-4 writer threads (+ compactor) run concurrently with seeded delays inside the writer critical sections; calls are stamped at the client boundary and an exact search decides whether some interleaving consistent with real-time order reproduces all results and the final contents under the sequential model.",
+         "Sequential spec = C04 model; search budget exceeded => inconclusive; perturbation (not enumeration) of schedules.", "DESIGN.md#c05"),
+ "C06": ("exploration", "directed pause-point schedules + stress, snapshot-membership history checker",
+         "Every (reader pause point x writer operation) and (writer/compaction pause point x reader) schedule is driven deterministically through the hook; readers must succeed, see exactly one admissible committed state, and keep returning it after later changes; plus free-running stress with admissible-window checking.",
+         "Pause points are the hook's; lock-blocked schedules are released after 300 ms and reported as such.", "DESIGN.md#c06"),
+ "C07": ("exploration", "independent boolean query evaluator (reference model) over generated schemas/corpora/query trees",
+         "An independent three-valued evaluator over analyzed field contents (engine's public analyzers only) decides which live documents must / may match each generated query tree; compared with the id set returned by exhaustive search.",
+         "Public analyzers trusted for tokenisation; cases the README leaves undefined are excluded and counted.", "DESIGN.md#c07"),
+ "C08": ("exploration", "independent filter evaluator over the original JSON documents",
+         "A tree-walk evaluator over original documents (scopes, nested binding, sibling same-path sharing) is compared with match_all+filter results in three request forms over generated nested schemas and filter trees.",
+         "Only fast fields targeted; ambiguous readings (non-ASCII folding, And-in-And sharing) not judged.", "DESIGN.md#c08"),
+ "C09": ("exploration", "differential: wand/bmw vs exhaustive bm25, epsilon-tie aware",
+         "For the same reader and request the pruned strategies must return an admissible top-k of the exhaustive ranking (tolerance-aware tie groups), over Zipfian corpora with multi-block postings, limits 1-50, block sizes 1-300.",
+         "Exhaustive bm25 execution is the reference; score tolerance 2e-5 relative.", "DESIGN.md#c09"),
+ "C10": ("exploration", "independent BM25/score-tree and sort-key computation",
+         "Hit order is checked against independently computed sort keys and hit scores against an independent BM25 + boosts/function/script/rank_feature computation from the corpus and commit layout.",
+         "Public analyzers trusted; score checks only on segments without deletions; tolerance 1e-4.", "DESIGN.md#c10"),
+ "C11": ("exploration", "metamorphic: cursor walk vs one big page; stale/foreign cursor rejection",
+         "Following next_cursor with page sizes 1-7 must reproduce the single-request result exactly; totals bounded/exact; cursors must be rejected after generation changes and under other sort plans.",
+         "Same reader for walk and reference; delete-only commits judged leniently as DESIGN states.", "DESIGN.md#c11"),
+ "C12": ("exploration", "layout-invariance metamorphic relation + independent aggregation computer",
+         "The same corpus under 4-5 commit layouts must give equal aggregation responses, and each response must equal an independent computation from the original JSON for every exact aggregation kind, recursively through sub-aggregations.",
+         "Undocumented conventions (range `to` inclusivity, fixed-interval key rounding, percentile interpolation) not judged.", "DESIGN.md#c12"),
+ "C13": ("exploration", "metamorphic: aggregations/suggest equal across paging/sort/execution variants",
+         "For a fixed (reader, query, filter, aggs, suggest) the aggregations and suggestions must be identical across limit, cursor page, sort, return_hits, execution, explain/profile and rescore variants.",
+         "Exact aggregation kinds only; numeric tolerance 1e-9.", "DESIGN.md#c13"),
+ "C14": ("exploration", "before/after-compaction metamorphic relation; refusal leaves bytes unchanged",
+         "Stored contents and the id-level results of a request battery must be equal before and after compaction; a refused compaction must leave manifest, file listing and hashes unchanged; second compaction and post-compaction commits are exercised.",
+         "Scores may change (statistics); order compared only where independent of scores.", "DESIGN.md#c14"),
+ "C15": ("exploration", "differential add-time vs commit-time verdict + labelled invalid mutants",
+         "Every document accepted by add_document must commit (alone and in a batch); every single-mutation schema violation must be rejected at add time.",
+         "Healthy storage; each mutation label is a violation class named by the property.", "DESIGN.md#c15"),
+ "C16": ("exploration", "panic/abort/hang monitor over generated + mutated requests in sandboxed workers (release-like and debug-assertions builds)",
+         "Structure-aware hostile requests and char-level mutations are executed by IndexReader::search in worker processes with an address-space limit and a watchdog; panics, process deaths and reproduced hangs are violations.",
+         "Requests that do not deserialise are outside the property; hang = reproduced alone with a 10x bound.", "DESIGN.md#c16"),
+ "C17": ("fault_enumeration", "byte-flip / truncation enumeration of every index file + open/search/writer probe in sandboxed workers",
+         "Every byte x 4 xor masks and every truncation length of every file of small indexes (thorough; sampled in quick) is applied in place; the probe must error or reproduce baseline answers exactly; the WAL must recover a prefix.",
+         "Acceptable outcomes: error at any stage or identical answers (WAL: prefix of the queue).", "DESIGN.md#c17"),
+ "C18": ("exploration", "collapse reference model over the uncollapsed ranking",
+         "Expected groups, representatives, order, total_groups and inner hits are derived from the same request without collapse and compared.",
+         "With limit < matches only the weaker invariants are judged.", "DESIGN.md#c18"),
+ "C19": ("exploration", "rescore reference model over base ranking + stand-alone rescore scores",
+         "Expected window scores (all five modes), drops by min_score, window re-sort and untouched tail are derived from the un-rescored ranking and the rescore query run alone, and compared.",
+         "Candidate pool per documented 'global candidate pool' (three admissible readings accepted).", "DESIGN.md#c19"),
+ "C20": ("exploration", "metamorphic: explain/profile on vs off",
+         "The four (explain, profile) variants of a request must agree in hits, order, bit-equal scores, totals, cursors, aggregations and suggestions; explanation.final_score equals the hit score.",
+         "total_hits_estimate compared only where exactness is promised.", "DESIGN.md#c20"),
+ "C21": ("exploration", "fragment well-formedness invariants on generated Unicode text",
+         "Every fragment/snippet must be non-empty, contain a tagged match, be a substring of the stored text once tags are removed, respect fragment_size and number_of_fragments.",
+         "Judged only when fragment_size >= 2x the longest possible match; length in characters.", "DESIGN.md#c21"),
+ "C22": ("exploration", "term-dictionary reference model for completion suggestions",
+         "Options are checked against a dictionary rebuilt with the public index analyzer: size, order, prefix/fuzzy membership, doc_freq, determinism, layout independence below the scan cap.",
+         "Score formula undocumented: preference among qualifying terms not judged.", "DESIGN.md#c22"),
+ "C23": ("exploration", "queue model at the HTTP client boundary against a live server",
+         "Generated valid/invalid /add,/bulk,/delete,/commit,/refresh,/compact,/search sequences (with restarts) against a real searchlite-http process; after each commit the index must equal the acknowledged queue.",
+         "Client boundary = oracle boundary; unknown-field documents not sent.", "DESIGN.md#c23"),
+ "C24": ("exploration", "response-shape/status monitor + liveness probe against a live server",
+         "Every syntactically valid HTTP/1.1 request (any method/path/content type/body/framing) must get a complete response with the documented JSON shape or error envelope and status class; /healthz stays 200.",
+         "Only syntactically valid HTTP is judged against the JSON contract.", "DESIGN.md#c24"),
+ "C25": ("exploration", "four-driver differential (library, CLI, HTTP, FFI)",
+         "One scenario through four drivers into four directories; final contents and every response must be equal after parsing.",
+         "FFI arm laid out one document per commit; CLI flag form compared with the documented request.", "DESIGN.md#c25"),
+ "C26": ("other", "guard pages + canaries around the real C ABI call (sanitizer-style), exhaustive over buffer capacities; ASan/Miri builds of the same matrix in thorough when available",
+         "The output buffer ends at a PROT_NONE page and is surrounded by canaries; every capacity 0..full_len+64 per tuple; return value, NUL, prefix and untouched bytes are checked; a 1-byte overrun kills the worker and is observed by the parent.",
+         "Caller honours the documented contract; panics (process abort) are C16's subject.", "DESIGN.md#c26"),
+ "C28": ("exploration", "copy equality + original removed/modified + strace path monitor + tamper hashes",
+         "Operations on a copied index run under strace -f -e trace=%file; no syscall may name a path under the original; answers equal; the original's files are untouched; the copy works with the original renamed away, modified or deleted.",
+         "Plain recursive copy of a quiescent index.", "DESIGN.md#c28"),
+ "C29": ("exploration", "brute-force vector oracle (vectors feature build)",
+         "Every hit's liveness, filters, vector_score, blended _score and order are checked against a brute-force computation; exact-NN completeness is judged when every segment holds <= m vectors.",
+         "ANN recall not a property; BM25 part taken from the engine's own alpha=1 run.", "DESIGN.md#c29"),
+ "C30": ("exploration", "metamorphic: composite paging vs unpaged + independent composite oracle",
+         "Feeding after_key back with page sizes 1-5 must reproduce the unpaged bucket sequence exactly, with after_key absent exactly on the last page.",
+         "One reader snapshot per walk.", "DESIGN.md#c30"),
 }
 NOT_YET = "check not built yet in this session (work in progress; will be claimed once its monitor is silent on the unchanged tree over several seeds)"
-NA = {}
+NA = {
+ "C27": "the browser artefact (wasm32 + IndexedDB) cannot be executed in this sandbox: there is no wasm32 target, no wasm-bindgen CLI, no browser and no IndexedDB; runtime monitoring has no execution to observe (re-hosting wasm.rs on hand-written shims was judged not defensible as an observation of the real system, see DESIGN.md section 5)",
+}
+ONLY_IF_BUILT = True
 
 def main():
     hooks_commits = [l.strip() for l in open(os.path.join(ROOT, "tools", "hook_commits.txt")) if l.strip()]
     checks = []
+    claimed = set(l.strip() for l in open(os.path.join(ROOT, "tools", "claimed.txt")) if l.strip() and not l.startswith("#"))
     for pid in ALL:
-        if pid not in CHECKS:
+        if pid not in CHECKS or pid not in claimed:
             continue
         cat, tech, text, note, ref = CHECKS[pid]
         checks.append({
@@ -34,7 +121,7 @@ def main():
         })
     na = []
     for pid in ALL:
-        if pid in CHECKS:
+        if pid in CHECKS and pid in claimed:
             continue
         na.append({"property_id": pid, "reason": NA.get(pid, NOT_YET)})
     m = {
@@ -48,7 +135,7 @@ def main():
             "add_only": True,
         },
         "engines": [
-            {"name": "vcheck", "path": "/verif/harness", "serves_properties": sorted(CHECKS.keys()),
+            {"name": "vcheck", "path": "/verif/harness", "serves_properties": sorted(k for k in CHECKS if k in claimed),
              "kind_free_text": "Rust harness (one binary per property) driving the real searchlite crates with seeded hostile workloads; oracles are independent reference models, metamorphic relations, fault/crash enumeration over strace-recorded syscall traces, history checkers, sanitizers"},
         ],
         "checks": checks,
